@@ -120,6 +120,44 @@ def replay(arg):
             pass
     except Exception as ex:
         mism.append(("raised", "analyze() raised %r" % (ex,), rep))
+    # selections: a scene / an area picks exactly its own row pairs
+    try:
+        npairs = table["tp"] + table["fp"] + table["tn"] + table["fn"]
+        for sc_ in range(S):
+            sel = an.get(scene=sc_)
+            if len(sel) != 2 * npairs:
+                mism.append(("selection-scene", "get(scene=%d) holds %d rows, one scene has %d row pairs" % (sc_, len(sel), npairs), rep))
+            if len(sel) and an.get_num_tp(df=sel) != table["tp"]:
+                mism.append(("selection-scene", "scene %d: num_tp %d, specification %d" % (sc_, an.get_num_tp(df=sel), table["tp"]), rep))
+            if npairs:
+                r_ = an.analyze(scene=sc_)
+                tot = int(r_.confusion_matrix.to_numpy().sum()) if r_.confusion_matrix is not None else 0
+                if tot != table["paired"]:
+                    mism.append(("selection-scene", "analyze(scene=%d): confusion matrix sums to %d, one scene has %d paired rows" % (sc_, tot, table["paired"]), rep))
+        if S == 1 and npairs:
+            an3 = PerceptionAnalyzer3D(mgr.evaluator_config, num_area_division=3)
+            an3.add(frame_results)
+            max_x = mgr.evaluator_config.evaluation_config_dict.get("max_x_position", 100.0)
+            third = 2.0 * max_x / 3.0
+            want_area = {0: 0, 1: 0, 2: 0}
+            for rec in frs:
+                xs = [rec["ests"][e - 1]["x"] for e, g in list(rec["tp"]) + list(rec["fp"])] + [rec["gts"][g - 1]["x"] for g in list(rec["tn"]) + list(rec["fn"])]
+                for x in xs:
+                    k_ = 0 if x > max_x - third else (1 if x > max_x - 2 * third else 2)
+                    if abs(x - (max_x - third)) > 1e-6 and abs(x - (max_x - 2 * third)) > 1e-6 and abs(x) < max_x:
+                        want_area[k_] += 1
+                    else:
+                        want_area = None
+                        break
+                if want_area is None:
+                    break
+            if want_area is not None:
+                for k_, cnt in want_area.items():
+                    got_ = len(an3.get(area=k_)) // 2
+                    if got_ != cnt:
+                        mism.append(("selection-area", "get(area=%d) holds %d row pairs, specification %d" % (k_, got_, cnt), rep))
+    except Exception as ex:
+        mism.append(("raised", "selection raised %r" % (ex,), rep))
     # per-object status tallies: each critical ground truth once per frame
     st = get_object_status(frame_results)
     per = {}
